@@ -25,7 +25,7 @@ static const char *KINDN[NKINDS] = { "bits-a8r8g8b8", "bits-r5g6b5", "bits-c8-in
 #define IS_BITS(k) ((k) <= K_C8)
 
 enum { F_XF, F_FIL, F_REP, F_CLIP, F_CSRC, F_CCL, F_AMAP, F_CA, F_ACC, F_DITH, F_DOFF, F_PAL, F_PAST, NFIELDS };   /* F_PAST: an episode in the image's life that leaves none of its properties changed */
-static const int NVAL[NFIELDS] = { 10, 6, 4, 4, 2, 2, 4, 2, 2, 3, 2, 3, 3 };
+static const int NVAL[NFIELDS] = { 10, 6, 4, 4, 2, 2, 4, 2, 2, 3, 2, 5, 3 };
 static const char *FIELDN[NFIELDS] = { "set_transform", "set_filter", "set_repeat", "set_clip_region", "set_source_clipping", "set_has_client_clip",
                                        "set_alpha_map", "set_component_alpha", "set_accessors", "set_dither", "set_dither_offset", "set_indexed", "episode" };
 static const char *VALN[NFIELDS][10] = {
@@ -37,7 +37,7 @@ static const char *VALN[NFIELDS][10] = {
     { "none", "m@(0,0)", "m@(1,0)", "m@(0,0)+accessors-set-on-the-map-image-itself(only the map is touched if it is already attached there)" },
     { "off", "on" }, { "off", "on(xor-1 read/write callbacks)" },
     { "none", "ordered-bayer-8", "ordered-blue-noise-64" }, { "(0,0)", "(1,2)" },
-    { "p1", "p2", "p3(= p1 in the first half of both tables)" },
+    { "p1", "p2", "p3(= p1 in the first half of both tables)", "own-copy-of-p1(all entries opaque)", "own-copy-of-p1-with-odd-entries-translucent(edited IN PLACE if the own copy is already attached)" },
     { "none", "served-as-the-alpha-map-of-a-temporary-image(drawn,then-detached,then-that-image-destroyed)", "served-as-the-alpha-map-of-a-temporary-image-that-was-destroyed-while-attached" },
 };
 typedef struct { uint8_t v[NFIELDS]; } ast_t;
@@ -106,7 +106,7 @@ static void acc_write(void *p, uint32_t v, int size)
 }
 
 /* ---------------------------------------------------------------- objects */
-typedef struct { int kind; pixman_image_t *img; uint32_t *buf; size_t bufsz; pixman_image_t *amap; uint8_t *abuf; } obj_t;
+typedef struct { int kind; pixman_image_t *img; uint32_t *buf; size_t bufsz; pixman_image_t *amap; uint8_t *abuf; pixman_indexed_t *ownpal; } obj_t;
 
 static const pixman_gradient_stop_t STOPS[3] = { { 0, { 0xffff, 0, 0, 0xffff } }, { 0x8000, { 0, 0x8000, 0, 0x8000 } }, { 0x10000, { 0x2000, 0x2000, 0xffff, 0xffff } } };
 
@@ -117,7 +117,12 @@ static obj_t obj_create(int kind, int palette)
         o.bufsz = (size_t)lstride[kind] * LH;
         o.buf = malloc(o.bufsz); memcpy(o.buf, pristine[kind], o.bufsz);
         o.img = pixman_image_create_bits(LFMT[kind], LW, LH, o.buf, lstride[kind]);
-        if (kind == K_C8) pixman_image_set_indexed(o.img, pal[palette]);
+        if (kind == K_C8) {
+            /* the object's own palette (the library keeps the pointer, not a copy: the caller may edit the table) */
+            o.ownpal = malloc(sizeof(pixman_indexed_t)); memcpy(o.ownpal, pal[0], sizeof(pixman_indexed_t));
+            if (palette >= 3) { if (palette == 4) for (int i = 1; i < 256; i += 2) o.ownpal->rgba[i] = (o.ownpal->rgba[i] & 0x00ffffffu) | 0x80000000u; pixman_image_set_indexed(o.img, o.ownpal); }
+            else pixman_image_set_indexed(o.img, pal[palette]);
+        }
         o.abuf = malloc(sizeof pristine_a); memcpy(o.abuf, pristine_a, sizeof pristine_a);
         o.amap = pixman_image_create_bits(PIXMAN_a8, LW, LH, (uint32_t *)o.abuf, 8);
     } else if (kind == K_LIN) {
@@ -136,7 +141,7 @@ static void obj_free(obj_t *o)
 {
     if (o->img) pixman_image_unref(o->img);
     if (o->amap) pixman_image_unref(o->amap);
-    free(o->buf); free(o->abuf); memset(o, 0, sizeof *o);
+    free(o->buf); free(o->abuf); free(o->ownpal); memset(o, 0, sizeof *o);
 }
 
 static const int32_t XFM[10][9] = {
@@ -190,7 +195,16 @@ static void apply_setter(obj_t *o, int f, int v)
     case F_ACC: if (v) pixman_image_set_accessors(im, acc_read, acc_write); else pixman_image_set_accessors(im, NULL, NULL); break;
     case F_DITH: { static const pixman_dither_t d[3] = { PIXMAN_DITHER_NONE, PIXMAN_DITHER_ORDERED_BAYER_8, PIXMAN_DITHER_ORDERED_BLUE_NOISE_64 }; pixman_image_set_dither(im, d[v]); break; }
     case F_DOFF: pixman_image_set_dither_offset(im, v ? 1 : 0, v ? 2 : 0); break;
-    case F_PAL: pixman_image_set_indexed(im, pal[v]); break;
+    case F_PAL:
+        if (v < 3) pixman_image_set_indexed(im, pal[v]);
+        else {
+            int attached = im->bits.indexed == o->ownpal;
+            /* bring the own table to the wanted contents; if it is the table the image already uses this is an edit in place and no library call is made */
+            for (int i = 0; i < 256; i++) o->ownpal->rgba[i] = pal[0]->rgba[i];
+            if (v == 4) for (int i = 1; i < 256; i += 2) o->ownpal->rgba[i] = (o->ownpal->rgba[i] & 0x00ffffffu) | 0x80000000u;
+            if (!attached) pixman_image_set_indexed(im, o->ownpal);
+        }
+        break;
     case F_PAST:
         if (v) {
             pixman_image_t *owner = pixman_image_create_bits(PIXMAN_a8r8g8b8, LW, LH, NULL, 0);
@@ -235,7 +249,7 @@ static const char *model_mismatch(const obj_t *o, const ast_t *s)
         if ((o->img->bits.read_func != NULL) != (s->v[F_ACC] != 0)) return "accessors";
         if ((int)o->img->bits.dither != (s->v[F_DITH] == 0 ? PIXMAN_DITHER_NONE : s->v[F_DITH] == 1 ? PIXMAN_DITHER_ORDERED_BAYER_8 : PIXMAN_DITHER_ORDERED_BLUE_NOISE_64)) return "dither";
         if (o->img->bits.dither_offset_x != (s->v[F_DOFF] ? 1 : 0) || o->img->bits.dither_offset_y != (s->v[F_DOFF] ? 2 : 0)) return "dither_offset";
-        if (o->kind == K_C8 && o->img->bits.indexed != pal[s->v[F_PAL]]) return "indexed";
+        if (o->kind == K_C8 && o->img->bits.indexed != (s->v[F_PAL] < 3 ? pal[s->v[F_PAL]] : o->ownpal)) return "indexed";
     }
     return NULL;
 }
@@ -351,7 +365,7 @@ static void make_trans(space_t *sp, int kind)
         add_trans(sp, F_FIL, 6); add_trans(sp, F_CLIP, 4); add_trans(sp, F_CSRC, 2); add_trans(sp, F_CCL, 2); add_trans(sp, F_AMAP, 4); add_trans(sp, F_CA, 2);
         add_trans(sp, F_ACC, 2); add_trans(sp, F_DITH, 3); add_trans(sp, F_DOFF, 2);
         sp->trans[sp->ntrans].f = F_PAST; sp->trans[sp->ntrans++].v = 1; sp->trans[sp->ntrans].f = F_PAST; sp->trans[sp->ntrans++].v = 2;
-        if (kind == K_C8) add_trans(sp, F_PAL, 3);
+        if (kind == K_C8) add_trans(sp, F_PAL, 5);
     } else {
         add_trans(sp, F_FIL, 2); add_trans(sp, F_CLIP, 4); add_trans(sp, F_CSRC, 2); add_trans(sp, F_CCL, 2); add_trans(sp, F_CA, 2);
     }
